@@ -47,6 +47,11 @@ func VerifC19(spec string, langs string) {
 	hvps, _ := hex.DecodeString(c19HevcVPS)
 	hsps, _ := hex.DecodeString(c19HevcSPS)
 	hpps, _ := hex.DecodeString(c19HevcPPS)
+	// general_profile_space(2) general_tier_flag(1) general_profile_idc(5) and the level of the
+	// supplied HEVC SPS are symbolic: the configuration record must carry whatever the SPS says
+	hsps = append([]byte{}, hsps...)
+	hsps[3] = vfy.U8("hevc.ptl")
+	hsps[17] = vfy.U8("hevc.level") // (index in the escaped stream: two emulation prevention bytes precede it)
 	for i := 0; i < n; i++ {
 		w := &ws[i]
 		w.kind, w.codec = spec[2*i], spec[2*i+1]
@@ -137,6 +142,12 @@ func VerifC19(spec string, langs string) {
 				vfy.Assert(len(e.HvcC.GetNalusForType(hevc.NALU_SPS)) == 1 && bytes.Equal(e.HvcC.GetNalusForType(hevc.NALU_SPS)[0], hsps), "hvcC carries the SPS verbatim")
 				vfy.Assert(len(e.HvcC.GetNalusForType(hevc.NALU_VPS)) == 1 && bytes.Equal(e.HvcC.GetNalusForType(hevc.NALU_VPS)[0], hvps), "hvcC carries the VPS verbatim")
 				vfy.Assert(len(e.HvcC.GetNalusForType(hevc.NALU_PPS)) == 1 && bytes.Equal(e.HvcC.GetNalusForType(hevc.NALU_PPS)[0], hpps), "hvcC carries the PPS verbatim")
+				p := s.ProfileTierLevel
+				c := e.HvcC.DecConfRec
+				vfy.Assert(c.GeneralProfileSpace == p.GeneralProfileSpace && c.GeneralTierFlag == p.GeneralTierFlag && c.GeneralProfileIDC == p.GeneralProfileIDC, "hvcC profile space / tier / profile idc equal those of the SPS")
+				vfy.Assert(c.GeneralProfileSpace == hsps[3]>>6 && c.GeneralTierFlag == (hsps[3]&0x20 != 0) && c.GeneralProfileIDC == hsps[3]&0x1f && c.GeneralLevelIDC == hsps[17], "hvcC profile space / tier / idc / level equal the supplied bytes")
+				vfy.Assert(c.GeneralProfileCompatibilityFlags == p.GeneralProfileCompatibilityFlags && c.GeneralConstraintIndicatorFlags == p.GeneralConstraintIndicatorFlags && c.GeneralLevelIDC == p.GeneralLevelIDC, "hvcC compatibility / constraint flags / level")
+				vfy.Assert(c.ChromaFormatIDC == s.ChromaFormatIDC && c.BitDepthLumaMinus8 == s.BitDepthLumaMinus8 && c.BitDepthChromaMinus8 == s.BitDepthChromaMinus8, "hvcC chroma format and bit depths")
 			}
 		case 'C':
 			e := stsd.Mp4a
